@@ -111,6 +111,23 @@ pub fn shard(ctx: &Ctx, spec: &Spec) -> Shard {
             ops = pre;
             sh.add("histories_many_blobs", 1);
         }
+        // one history in twelve starts with a fat blob: 70..140 records over the few keys (several versions of
+        // every key, the largest one included), so that the blob's on-disk index has more than one B+tree leaf
+        // once the random part of the history closes, dumps or restarts it
+        if rng.chance(1, 12) {
+            let m = rng.range(70, 140);
+            let nk = spec.profile.n_keys.max(1) as u64;
+            let mut pre = Vec::new();
+            for _ in 0..m {
+                let meta = if spec.profile.n_meta > 0 && rng.chance(1, 4) { Some(rng.range(1, spec.profile.n_meta as u64) as u8) } else { None };
+                pre.push(Op::Put { k: rng.below(nk) as u16, ts: rng.below(spec.profile.ts_max.max(1) + 1), meta, size: rng.range(8, 24) as u32 });
+            }
+            pre.push(if rng.chance(1, 2) { Op::ForceUpdate { pred: true } } else { Op::Close });
+            pre.push(Op::Dump);
+            pre.extend(ops);
+            ops = pre;
+            sh.add("histories_fat_blob", 1);
+        }
         let hid = ((ctx.shard as u64) << 20) | n;
         let out = run_history(&cfg, hid, &ops, spec.surface);
         sh.evaluations += 1;
